@@ -157,6 +157,10 @@ fn many(name: String, params: Value) -> Scenario {
             e.push(Ev::Deliver(inbound(0, false, 0, &ids, &format!("all{}", t))));
             let rev: Vec<u32> = ids.iter().rev().copied().collect();
             e.push(Ev::Deliver(inbound(0, false, 0, &rev, &format!("rev{}", t))));
+            // a long list: 40 identifiers nobody holds (any more), the live ones at its very end
+            let mut long: Vec<u32> = (1000..1040).collect();
+            long.extend(ids.iter().copied());
+            e.push(Ev::Deliver(inbound(0, false, 0, &long, &format!("long{}", t))));
             e
         };
         drive(&mut sys, chz, depth, &devs, &evs);
